@@ -2,6 +2,7 @@ package main
 
 import (
 	"fmt"
+	"go/constant"
 	"go/token"
 	"go/types"
 	"net"
@@ -249,8 +250,79 @@ func checkC19(c *Ctx) {
 		}
 	}
 
+	// the policy part: OnReload installs the parsed lists of the NEW configuration field by field (all of them, each
+	// from the field of the same name), and does not re-parse into the live object
+	if f := c.fn("C19.2", lib, "RegistrationManager", "OnReload"); f != nil && len(f.Params) == 2 {
+		need := map[string]bool{"covertBlocklistSubnets": false, "covertBlocklistDomains": false, "phantomBlocklist": false, "covertAllowlistSubnets": false, "enableCovertAllowlist": false}
+		newCfg := P(f, 1)
+		eachInstr(f, func(in ssa.Instruction) {
+			switch x := in.(type) {
+			case *ssa.Store:
+				o, fld, ok := fieldOwner(x.Addr)
+				if !ok || o != "lib.RegConfig" {
+					return
+				}
+				if _, tracked := need[fld]; !tracked {
+					return
+				}
+				vp := pathOf(x.Val)
+				if vp == newCfg+"."+fld {
+					need[fld] = true
+				} else {
+					r.Bad("C19.2", "OnReload: RegConfig."+fld+" <- "+firstN(vp, 50), x.Pos(), fnName(f), "the live policy field "+fld+" is set from "+firstN(vp, 60)+" instead of the same field of the configuration that just loaded")
+				}
+			case ssa.CallInstruction:
+				if cal := x.Common().StaticCallee(); cal != nil && cal.Signature.Recv() != nil && strings.HasSuffix(typeShort(cal.Signature.Recv().Type()), "lib.RegConfig") {
+					rv := recvOf(x.Common())
+					if rv != nil && strings.HasSuffix(pathOf(rv), ".RegConfig") && !strings.HasPrefix(pathOf(rv), newCfg) && mutatesReceiver(cal) {
+						r.Bad("C19.2", "OnReload: calls "+cal.Name()+" on the live configuration", in.Pos(), fnName(f),
+							"OnReload runs "+cal.Name()+", which rewrites the live policy object in place: while it runs the lists are empty or half rebuilt for the ingest workers, a failure leaves a mixture in force, and state that the parser only ever switches on (the allowlist flag) survives a reload that removed it")
+					}
+				}
+			}
+		})
+		var missing []string
+		for fld, ok := range need {
+			if !ok {
+				missing = append(missing, fld)
+			}
+		}
+		sort.Strings(missing)
+		r.Check(len(missing) == 0, "C19.2", "OnReload: every parsed policy field is taken over from the new configuration", f.Pos(), fnName(f), "5 fields, each from the field of the same name",
+			"OnReload does not install "+strings.Join(missing, ", ")+" from the new configuration: after a reload the policy in force is neither the new nor the previous version (e.g. allowlist mode stays on with an empty list and every covert is refused)")
+	}
+
 	// ---- C19.3 printers
 	r.Rule("C19.3", "statistics printers: no integer division by a variable; optional interface fields nil-guarded", 5)
+	// an optional cache field holds a usable cache or nothing: the LRU constructor (the only cache constructor that can
+	// fail, returning a nil *lruCache that would sit in the interface field as a non-nil interface) gets a positive size
+	if f := c.fn("C19.3", "pkg/station/liveness", "", "newLRUCache"); f != nil {
+		for _, ci := range callsIn(f, func(n string, _ *ssa.CallCommon) bool {
+			return strings.HasSuffix(n, "golang-lru.NewWithEvict") || strings.HasSuffix(n, "golang-lru.New")
+		}) {
+			sz := ci.Common().Args[0]
+			sp := pathOf(sz)
+			fixes := map[ssa.Instruction]bool{}
+			eachInstr(f, func(in ssa.Instruction) {
+				if st, ok := in.(*ssa.Store); ok && pathOf(st.Addr) == sp {
+					if cv, ok := constOf(st.Val); ok {
+						if v, ok := constant.Int64Val(constant.ToInt(cv)); ok && v > 0 {
+							fixes[in] = true
+						}
+					} else if g, ok := stripLoad(st.Val).(*ssa.Global); ok {
+						if v, ok := globalInitConst(c.P, g.Pkg.Pkg.Path(), g.Name()); ok && !strings.HasPrefix(v, "-") && v != "0" {
+							fixes[in] = true
+						}
+					}
+				}
+			})
+			pos := edgesEstablishing(f, func(cnd string, pol bool) bool { return pol && cnd == "(0 < "+sp+")" })
+			bad, w := reach(f, nil, isInstr(ci.(ssa.Instruction)), anyOf(fixes), pos)
+			r.Check(!bad, "C19.3", "newLRUCache: the LRU is created with a positive size on every path", ci.Pos(), fnName(f), "size > 0 tested, or replaced by a positive default",
+				"the LRU constructor can be called with a size <= 0 (a negative capacity in an accepted configuration): it fails, newLRUCache returns a nil *lruCache, Init stores it in the interface-typed cache field where every `!= nil` guard passes, and the statistics printer / every lookup panics on the nil receiver")
+			_ = w
+		}
+	}
 	var modFns []*ssa.Function
 	if m := c.P.Func(repoMod+"/cmd/application", "", "main"); m != nil {
 		for _, ci := range callsIn(m, shortIs("AddStatsModule")) {
@@ -709,4 +781,20 @@ func tomlStringArray(s, key string) []string {
 
 func inSet(m map[ssa.Instruction]bool) func(ssa.Instruction) bool {
 	return func(in ssa.Instruction) bool { return m[in] }
+}
+
+// mutatesReceiver: the method stores into a field of its receiver.
+func mutatesReceiver(m *ssa.Function) bool {
+	if m == nil || m.Blocks == nil || len(m.Params) == 0 {
+		return false
+	}
+	found := false
+	eachInstr(m, func(in ssa.Instruction) {
+		if st, ok := in.(*ssa.Store); ok {
+			if fa, ok := st.Addr.(*ssa.FieldAddr); ok && fa.X == ssa.Value(m.Params[0]) {
+				found = true
+			}
+		}
+	})
+	return found
 }
